@@ -96,35 +96,46 @@ def check_cleartext_phase(ctx, f, B, outs, followed):
         if cal not in reach:
             reach[cal] = bool(issue & set(G.cone([p for p in (cal, cal + '::{closure#0}') if p in f.mir] or [cal])))
         return reach[cal]
-    # the one-operation driver entry, by role: takes the connection and a oneshot sender of Result<the connection, ..>
-    single = [p for p, it in f.items.items() if it.get('kind') in ('AssocFn', 'Fn') and p in f.hir and len(it.get('inputs') or []) == 2
-              and it['inputs'][0] == DRIVER and it['inputs'][1].startswith('tokio::sync::oneshot::Sender<core::result::Result<%s,' % DRIVER)]
     has_tls = 'ldap3::conn::LdapConnAsync::create_tls_stream' in f.hir
-    if has_tls:
-        ctx.add('W2.one-operation-driver', DRIVER, loc(B.root), len(single) == 1, 'no single function (connection, oneshot::Sender<Result<connection>>): the one-operation driver used for the StartTLS exchange was not found: anchor lost')
-    if has_tls and len(single) == 1:
-        # "one turn": the function the spawned task runs is the driver loop in a mode of its own - not the mode of the public
-        # `drive()`, which serves the request channel until the last handle is gone (what the one-operation mode does with the
-        # connection when its loop ends is C04 L6's)
-        LOOP = C.loop_path.split('::{closure')[0]
-        def modes(p):
+    # "the one turn of the driver that carries the StartTLS exchange", by role: a run of the driver loop (anchors.Conn: the body that
+    # receives from the request channel) in a mode of its own - not the mode of the public `drive()`, which serves the request
+    # channel until the last handle is gone - either called as such or through a workspace function that, on every one of its
+    # paths, does exactly that with the connection it is given (what the one-operation mode does with the connection when its
+    # loop ends is C04 L6's)
+    kind_of = lambda t: ('handle' if t == HANDLE else 'connection' if t == DRIVER
+                         else 'framed transport' if re.match(r'tokio_util::codec::framed::Framed(Parts)?<ldap3::conn::ConnType\b', t) else 'transport' if t == 'ldap3::conn::ConnType'
+                         else 'socket' if t == 'tokio::net::tcp::stream::TcpStream' else None)
+    LOOP = C.loop_path.split('::{closure')[0]
+    DROP = ('core::mem::drop',)
+    memo = {}
+    def loop_modes(p):
+        if p not in memo:
+            memo[p] = None
             Bp = hirq.Body(f, f.body(p))
             ctx.analysed['bodies'].add(p)
             ms = []
             for o in absx.Interp(f, Bp, unroll=1, combinators=True).run(root=Bp.root['body'] if Bp.root['k'] == 'Closure' else Bp.root):
-                loops = [e for e in o.st.ev if e[0] == 'call' and e[1] == LOOP]
-                ms.append(tuple(e[2][1] if len(e[2]) == 2 and e[2][0] == ('param', 'self') else ('unk',) for e in loops))
-            return ms
-        pub = [p for p in (DRIVER + '::drive',) if p in f.hir]
-        cont = {m for ms in (modes(p) for p in pub) for path in ms for m in path}
-        mine = modes(single[0])
-        ok = bool(pub) and bool(mine) and all(len(path) == 1 and path[0][0] == 'ctor' and not path[0][2] and path[0] not in cont for path in mine)
-        ctx.add('W2.one-operation-driver', 'mode', loc(f.body(single[0])['body']), ok,
-                'the function whose task carries the StartTLS exchange (%s) does not run the driver loop exactly once in a mode of its own: %s; drive() uses %s - in the continuous mode the cleartext connection keeps serving the request channel' % (
-                    single[0].rsplit('::', 1)[-1], sorted({absx.fmt(m) for path in mine for m in path}) or 'no call of the loop', sorted(absx.fmt(m) for m in cont)))
-    kind_of = lambda t: ('handle' if t == HANDLE else 'connection' if t == DRIVER
-                         else 'framed transport' if re.match(r'tokio_util::codec::framed::Framed(Parts)?<ldap3::conn::ConnType\b', t) else 'transport' if t == 'ldap3::conn::ConnType'
-                         else 'socket' if t == 'tokio::net::tcp::stream::TcpStream' else None)
+                used = [e for e in o.st.ev if e[0] == 'call' and e[1] not in DROP and any(kind_of(t) == 'connection' for t in arg_types(e[3]))]
+                ms.append(tuple(e[2][1] if e[1] == LOOP and len(e[2]) == 2 and e[2][0] == ('param', 'self') else ('unk', e[1]) for e in used))
+            memo[p] = ms
+        return memo[p]
+    pub = [p for p in (DRIVER + '::drive',) if p in f.hir]
+    ctx.add('W2.continuous-mode', DRIVER + '::drive', loc(B.root), len(pub) == 1, 'the public drive() of the connection was not found: anchor lost')
+    cont = {m for p in pub for path in (loop_modes(p) or []) for m in path}
+    own_mode = lambda m: m[0] == 'ctor' and not m[2] and m not in cont
+    def one_turn(cal, args):
+        """None when the call is a run of the driver loop in a mode of its own, else what it is instead"""
+        if not cont:
+            return 'the mode of drive() is not known'
+        if cal == LOOP:
+            return None if len(args) == 2 and own_mode(args[1]) else 'the driver loop is run in the mode %s, the one drive() uses' % absx.fmt(args[1] if len(args) == 2 else ('unk',))
+        if cal in f.hir and cal not in pub and (f.items.get(cal) or {}).get('inputs', [None])[0] == DRIVER:
+            ms = loop_modes(cal)
+            if ms and all(len(path) == 1 and own_mode(path[0]) for path in ms):
+                return None
+            return '`%s` does not run the driver loop exactly once in a mode of its own (%s; drive() uses %s)' % (
+                cal.rsplit('::', 1)[-1], sorted({absx.fmt(m) for path in ms or [] for m in path}) or 'no run of the loop', sorted(absx.fmt(m) for m in cont))
+        return 'the driver serves the request channel over the cleartext TCP stream beyond the one turn that carries the StartTLS exchange'
     def components(t):
         """the direct components of a tuple type / the type argument of a one-argument owning wrapper"""
         if t.startswith('(') and t.endswith(')'):
@@ -149,7 +160,6 @@ def check_cleartext_phase(ctx, f, B, outs, followed):
         if k is None and depth < 3:
             k = next((x for x in (sensitive(hirq.strip_refs(c), depth + 1) for c in components(t)) if x), None)
         return k
-    DROP = ('core::mem::drop',)
     STARTTLS = (('ctor', 'starttls::StartTLS', ()), ('const', 'ldap3::exop_impl::starttls::StartTLS'))
     n = 0
     for o in outs:
@@ -198,18 +208,22 @@ def check_cleartext_phase(ctx, f, B, outs, followed):
                 bad.append('`%s` is called on the handle%s: %s' % (nm, where, 'an LDAPMessage other than the StartTLS request is sent on the cleartext TCP stream' if cal.startswith(HANDLE + '::') and issues_message(cal) else
                            'the handle is handed to a function the analysis does not follow while the transport is cleartext'))
             elif k == 'connection':
-                if single and cal == single[0] and where:
+                why = one_turn(cal, e[2])
+                if why is None:
                     n_single += 1
                     if n_single > 1 or sch == 'ldaps':
                         bad.append('the one-operation driver is run %s%s' % ('a second time' if n_single > 1 else 'on an ldaps connection before the handshake', where))
                     continue
-                bad.append('the connection is given to `%s`%s: the driver serves the request channel over the cleartext TCP stream beyond the one turn that carries the StartTLS exchange' % (nm, where))
+                bad.append('the connection is given to `%s`%s: %s' % (nm, where, why))
             elif k == 'framed transport' and nm == 'into_parts':
                 continue
             elif k in ('transport', 'socket') and cal.endswith('LdapConnAsync::conn_pair') and not where:
                 continue
             else:
                 bad.append('the %s is given to `%s`%s while it is still the cleartext TCP stream' % (k, nm, where))
+        if sch == 'ldap' and o.kind in ('val', 'ret') and o.val[0] == 'ctor' and o.val[1] == 'Ok':
+            ctx.add('W2.one-operation-driver', key, loc(B.root), n_single == 1 and n_start == 1,
+                    'a connection is handed back for ldap + StartTLS on a path with %d run(s) of the one-operation driver and %d StartTLS request(s): the exchange is one request served by one turn' % (n_single, n_start))
         ctx.add('W2.nothing-else-in-clear', key, loc(B.root), not bad,
                 '%s URL%s, %s: %s - "no LDAP message other than the StartTLS request itself is ever sent in cleartext" holds on the paths that fail too (the error still reaches the caller, but what was written is on the wire)' % (
                     sch, ' with StartTLS requested' if sch == 'ldap' else '', stage, '; '.join(dict.fromkeys(bad))))
